@@ -2,6 +2,7 @@
 vm_compute) versus a live handshake between two real TLSConnection objects (harness/loop.py).
 A pair with compatible = true whose handshake fails is a violation (the pair is the replay);
 compatible = false pairs that connect are fine and only counted."""
+import copy
 import multiprocessing
 import os
 import random
@@ -10,7 +11,9 @@ import vlib
 import c19_model as M
 
 KNOWN = [(3, 0), (3, 1), (3, 2), (3, 3), (3, 4)]
-CREDS = {'rsa': ('rsa', None), 'ecdsa': ('ecdsa', 'secp256r1')}
+CREDS = {'rsa': ('rsa', None), 'ecdsa': ('ecdsa', 'secp256r1'), 'psk': ('psk', None)}
+PSK256 = [(b'shared-identity', bytearray(b'\x5a' * 32))]
+PSK384 = [(b'shared-identity-384', bytearray(b'\xa5' * 48), 'sha384')]
 RUN = '_%d' % os.getpid()     # concurrent C19 runs must not share coq/_cases file names
 IMPORTS = ['Gen.SettingsTables', 'Model.C19_Settings', 'Model.C19_Repo', 'Spec.C19_Domain', 'Spec.C19_Compat']
 PREAMBLE = '''
@@ -117,7 +120,10 @@ def gen_pair(seed):
     cred = rng.choice(['rsa', 'rsa', 'ecdsa'])
     c, lc = gen_side(rng, 'client')
     s, ls = gen_side(rng, 'server')
-    return {'seed': seed, 'cred': cred, 'client': M.describe(c), 'server': M.describe(s), 'labels': (lc, ls)}
+    p = {'seed': seed, 'cred': cred, 'client': M.describe(c), 'server': M.describe(s), 'labels': (lc, ls)}
+    if rng.random() < 0.5:
+        p = overlay(rng, p)
+    return p
 
 
 def directed_pairs():
@@ -183,12 +189,101 @@ def directed_pairs():
 RSL_VALUES = [64, 65, 100, 200, 511, 512, 1024, 2 ** 14, 2 ** 14 + 1]
 
 
-def cred_lit(name):
+def cred_lit(name, psk=None):
     import loop
-    chain, key = loop.creds(name)
     kind, curve = CREDS[name]
-    bits = len(key) if kind == 'rsa' else 256
-    return '{| cr_kind := %s; cr_bits := %d; cr_curve := %s |}' % (vlib.strlit(kind), bits, vlib.strlit(curve or ''))
+    bits = 0
+    if kind != 'psk':
+        chain, key = loop.creds(name)
+        bits = len(key) if kind == 'rsa' else 256
+    return '{| cr_kind := %s; cr_bits := %d; cr_curve := %s; cr_psk := %s |}' % (
+        vlib.strlit(kind), bits, vlib.strlit(curve or ''), vlib.strlit(psk or ''))
+
+
+# ---- dimensions that interact ACROSS handshake messages ------------------------------------------------
+GROUP_CFGS = [       # (label, client kw, server kw): the last four force a HelloRetryRequest in TLS 1.3
+    ('groups-default', {}, {}),
+    ('hrr:x25519->secp256r1', {'keyShares': ['x25519']}, {'eccCurves': ['secp256r1'], 'keyShares': ['secp256r1']}),
+    ('hrr:no-share', {'keyShares': []}, {}),
+    ('hrr:x25519->secp384r1', {'keyShares': ['x25519']}, {'eccCurves': ['secp384r1', 'secp521r1'], 'keyShares': ['secp384r1']}),
+    ('hrr:x25519->ffdhe2048', {'keyShares': ['x25519']}, {'eccCurves': [], 'dhGroups': ['ffdhe2048'], 'keyShares': ['ffdhe2048']}),
+]
+PSK_CFGS = [         # (label, client kw, server kw, hash of the shared PSK or None, resume through a prior connection)
+    ('psk-none', {}, {}, None, False),
+    ('psk-sha256', {'pskConfigs': PSK256}, {'pskConfigs': PSK256}, 'sha256', False),
+    ('psk-sha384', {'pskConfigs': PSK384}, {'pskConfigs': PSK384}, 'sha384', False),
+    ('psk-sha256-ke-only', {'pskConfigs': PSK256, 'psk_modes': ['psk_ke']}, {'pskConfigs': PSK256, 'psk_modes': ['psk_ke']},
+     'sha256', False),
+    ('psk-sha384-client-ke-only', {'pskConfigs': PSK384, 'psk_modes': ['psk_ke']}, {'pskConfigs': PSK384}, 'sha384', False),
+    ('psk-both-hashes', {'pskConfigs': PSK384 + PSK256}, {'pskConfigs': PSK256 + PSK384}, 'sha256', False),
+    ('ticket-from-prior-connection', {}, {'ticketKeys': [bytearray(b'\x11' * 32)]}, None, True),
+]
+
+
+def _mkdesc(**kw):
+    import tlslite.handshakesettings as hs
+    s = hs.HandshakeSettings()
+    for k, v in kw.items():
+        setattr(s, k, v)
+    return M.describe(s)
+
+
+def cross_pairs():
+    """{group settings forcing HelloRetryRequest} x {external PSK sha256/sha384, psk_modes, ticket from a prior
+    connection} x {certificate, PSK-only server} (+ record_size_limit and protocol-version variants)."""
+    out = []
+    n = 4000
+
+    def add(label, cred, ckw, skw, psk, resume):
+        nonlocal n
+        n += 1
+        out.append({'seed': n, 'cred': cred, 'client': _mkdesc(**ckw), 'server': _mkdesc(**skw), 'psk': psk,
+                    'resume': resume, 'labels': (['cross:' + label], [])})
+    for gl, gc, gs in GROUP_CFGS:
+        for pl, pc, ps, h, resume in PSK_CFGS:
+            ckw, skw = dict(gc, **pc), dict(gs, **ps)
+            add('%s+%s+rsa' % (gl, pl), 'rsa', ckw, skw, h, resume)
+            if h:
+                add('%s+%s+no-certificate' % (gl, pl), 'psk', ckw, skw, h, False)
+            if pl in ('psk-sha256', 'ticket-from-prior-connection') and gl in ('groups-default', 'hrr:x25519->secp256r1', 'hrr:no-share'):
+                add('%s+%s+ecdsa' % (gl, pl), 'ecdsa', ckw, skw, h, resume)
+                for side in ('client', 'server'):
+                    for lim in (64, 511):
+                        c2, s2 = dict(ckw), dict(skw)
+                        (c2 if side == 'client' else s2)['record_size_limit'] = lim
+                        add('%s+%s+rsa+record_size_limit=%d on the %s' % (gl, pl, lim, side), 'rsa', c2, s2, h, resume)
+    # older protocol versions: resumption through the session cache / tickets, PSK settings present but unused
+    for ver in [(3, 1), (3, 2), (3, 3)]:
+        add('TLS %d.%d+ticket-from-prior-connection+rsa' % ver, 'rsa', {'maxVersion': ver},
+            {'ticketKeys': [bytearray(b'\x11' * 32)]}, None, True)
+        add('TLS %d.%d+session-cache-resumption+rsa' % ver, 'rsa', {'maxVersion': ver}, {}, None, True)
+        add('TLS %d.%d+psk-sha256 configured+rsa' % ver, 'rsa', {'maxVersion': ver, 'pskConfigs': PSK256},
+            {'pskConfigs': PSK256}, 'sha256', False)
+    return out
+
+
+def overlay(rng, p):
+    """Put a random (group, PSK/ticket, record_size_limit) combination on top of a generated pair (kept only
+    when both sides still validate)."""
+    gl, gc, gs = rng.choice(GROUP_CFGS)
+    pl, pc, ps, h, resume = rng.choice(PSK_CFGS)
+    c, s = M.rebuild(p['client']), M.rebuild(p['server'])
+    for k, v in dict(gc, **pc).items():
+        setattr(c, k, copy.deepcopy(v))
+    for k, v in dict(gs, **ps).items():
+        setattr(s, k, copy.deepcopy(v))
+    if rng.random() < 0.4:
+        setattr(rng.choice([c, s]), 'record_size_limit', rng.choice(RSL_VALUES))
+    try:
+        c.validate()
+        s.validate()
+    except ValueError:
+        return p
+    q = dict(p, client=M.describe(c), server=M.describe(s), psk=h, resume=resume)
+    q['labels'] = (p['labels'][0] + ['overlay:%s+%s' % (gl, pl)], p['labels'][1])
+    if h and rng.random() < 0.3:
+        q['cred'] = 'psk'
+    return q
 
 
 def run_pair(p):
@@ -205,14 +300,32 @@ def run_pair(p):
                 return {'lit': None, 'rejected': True, 'client': ('rejected',), 'server': ('rejected',), 'version': None,
                         'detail': (str(e)[:200], '')}
             raise
-        lit = '(%s, %s, %s)' % (M.settings_lit(vc), M.settings_lit(vs), cred_lit(p['cred']))
-        chain, key = loop.creds(p['cred'])
-        pair = loop.Pair()
-        co, so = pair.handshake(client_kw={'settings': c}, server_kw={'certChain': chain, 'privateKey': key, 'settings': s})
+        lit = '(%s, %s, %s)' % (M.settings_lit(vc), M.settings_lit(vs), cred_lit(p['cred'], p.get('psk')))
+        skw = {'settings': s}
+        if p['cred'] != 'psk':
+            chain, key = loop.creds(p['cred'])
+            skw.update(certChain=chain, privateKey=key)
+        ckw = {'settings': c}
+        phase = 'handshake'
+        if p.get('resume'):
+            # a prior connection supplies the session / ticket the second one offers
+            from tlslite.api import SessionCache
+            skw['sessionCache'] = SessionCache()
+            first = loop.Pair()
+            co, so = first.handshake(client_kw=dict(ckw), server_kw=dict(skw))
+            if co[0] == 'ok' and so[0] == 'ok':
+                first.transfer(first.client, first.server, b'a' * 300)
+                first.transfer(first.server, first.client, b'b' * 300)      # the client reads: NewSessionTicket arrives
+                ckw['session'] = first.client.session
+                phase = 'resumed-handshake'
+            else:
+                phase = 'prior-handshake'
+        if phase != 'prior-handshake':
+            pair = loop.Pair()
+            co, so = pair.handshake(client_kw=ckw, server_kw=skw)
         cc, sc = loop.classify(co), loop.classify(so)
         ver = None
         detail = (repr(co[1])[:200] if co[0] == 'exc' else '', repr(so[1])[:200] if so[0] == 'exc' else '')
-        phase = 'handshake'
         if cc == ('ok',) and sc == ('ok',):
             ver = tuple(pair.client.version)
             # data both ways, more than the smallest record_size_limit in force
@@ -222,7 +335,7 @@ def run_pair(p):
                 data = tag * n
                 w, r, got = pair.transfer(src, dst, data)
                 if w[0] == 'exc' or r[0] == 'exc' or got != data:
-                    phase = 'transfer'
+                    phase = 'transfer' if phase == 'handshake' else phase + '+transfer'
                     wc = loop.classify(w) if w[0] == 'exc' else ('ok',)
                     rc = loop.classify(r) if r[0] == 'exc' else ('ok',)
                     if got != data and wc == ('ok',) and rc == ('ok',):
@@ -231,7 +344,8 @@ def run_pair(p):
                     cc, sc = (wc, rc) if src is pair.client else (rc, wc)
                     detail = (repr(w[1])[:200] if w[0] == 'exc' else '', repr(r[1])[:200] if r[0] == 'exc' else '')
                     break
-        return {'lit': lit, 'client': cc, 'server': sc, 'version': ver, 'detail': detail, 'phase': phase}
+        return {'lit': lit, 'client': cc, 'server': sc, 'version': ver, 'detail': detail, 'phase': phase,
+                'resumed': bool(getattr(pair.client, 'resumed', False)) if ver else None}
     except Exception as e:  # noqa
         import traceback
         return {'lit': None, 'client': ('Harness', type(e).__name__), 'server': ('Harness', str(e)[:200]), 'version': None,
@@ -264,7 +378,7 @@ def run_pairs(ctx, found, model_ok):
     quick = ctx.tier == 'quick'
     n = 48 if quick else 1000
     seeds = [ctx.rng.randrange(2 ** 31) for _ in range(n)]
-    pairs = directed_pairs() + [gen_pair(sd) for sd in seeds]
+    pairs = directed_pairs() + cross_pairs() + [gen_pair(sd) for sd in seeds]
     with multiprocessing.Pool(min(16, vlib.NPROC)) as pool:
         outs = pool.map(run_pair, pairs, chunksize=4)
     if not model_ok:
@@ -290,7 +404,7 @@ def run_pairs(ctx, found, model_ok):
         connected = o['client'] == ('ok',) and o['server'] == ('ok',)
         c = j in compat
         ca = j in compat_any
-        key = (p['cred'], o['version'], cls(o['client']), cls(o['server']), c, tuple(sorted(set(p['labels'][0]))), tuple(sorted(set(p['labels'][1]))))
+        key = (p['cred'], o['version'], o.get('resumed'), cls(o['client']), cls(o['server']), c, tuple(sorted(set(p['labels'][0]))), tuple(sorted(set(p['labels'][1]))))
         ctx.count('pairs(compatible vs live handshake)', 1, [key],
                   sample={'cred': p['cred'], 'labels': p['labels'], 'compatible': c, 'client': o['client'], 'server': o['server'],
                           'version': o['version']} if j % 17 == 0 else None)
@@ -301,7 +415,7 @@ def run_pairs(ctx, found, model_ok):
         else:
             stats['incompatible+connect' if connected else 'incompatible+fail'] += 1
         if c and not connected:
-            V(ctx, found, 'compatible-pair-fails:%s%s:%s:%s' % ('' if o.get('phase') != 'transfer' else 'transfer:',
+            V(ctx, found, 'compatible-pair-fails:%s%s:%s:%s' % ('' if o.get('phase', 'handshake') in ('handshake', 'prior-handshake') else o['phase'] + ':',
                                                                 cls(o['client']), cls(o['server']), reason(o)),
               'settings pair is compatible (shares a version and for it a suite, group and signature scheme usable with the %s '
               'credentials) but the %s fails: client %s, server %s; changed dimensions client=%s server=%s'
